@@ -142,7 +142,19 @@ def tracer_frames(rng, tier):
         fail = None
         if not numpy.array_equal(x2.data, x20): fail = 'forward/reverse sweep modified the input object'
         elif not numpy.array_equal(yb.data, yb0): fail = 'reverse sweep modified the seed object'
-        else:
+        if fail is None:
+            # the same with seed objects of other memory kinds: a UTPM that OWNS a freshly allocated array of exactly the dependent's
+            # shape and dtype, a non-contiguous view, and a second sweep with the very same seed object
+            for kind_ in ('owning', 'view', 'owning-twice'):
+                if kind_ == 'view':
+                    big = numpy.zeros((yb0.shape[0], 2 * yb0.shape[1]) + yb0.shape[2:], dtype=yb0.dtype); sd = U(big[:, ::2]); sd.data[...] = yb0
+                else: sd = U(numpy.array(yb0, dtype=cg.dependentFunctionList[0].x.data.dtype, copy=True, order='C'))
+                try:
+                    cg.pullback([sd])
+                    if kind_ == 'owning-twice': cg.pullback([sd])
+                except Exception: break
+                if not numpy.array_equal(sd.data, yb0): fail = 'reverse sweep modified the seed object (%s seed)' % kind_; break
+        if fail is None:
             for f, v in vals:
                 if not numpy.array_equal(f.x.data, v, equal_nan=True): fail = 'reverse sweep modified the forward value of node %d (%s)' % (f.ID, f.func.__name__); break
         yield case, fail
